@@ -117,7 +117,22 @@ let answer (s : snode list) (t : dnode list) (q : string) : string =
          | FErr e -> "Y:E" ^ string_of_int (int_of_n e)
          | FRes (EFound p) -> "Y:" ^ pos_str p
          | FRes _ -> "Y:-")
-    | ["G"; _; _] -> "G:ok"      (* after lyd_change_term() the new path of the node still identifies it (checked by the driver) *)
+    | ["G"; ph; vh] ->
+        (* C15_pathmodel_change_term_paths: the model changes the value (change_term), checks the hypotheses dwf / quotes_ok
+           of the changed tree and the conclusions for the changed node; the driver does the same on libyang's tree *)
+        (match find_path s t (unhex ph) with
+         | FRes (EFound p) ->
+             (match change_term t p (unhex vh) with
+              | None -> "G:ok"                       (* not a term node, or the text is refused: nothing changes *)
+              | Some t' ->
+                  if not (dwf s t' && quotes_ok t') then "G:not-wf"
+                  else (match path_of t' p with
+                        | Some bs ->
+                            (match find_path s t' bs, new_path s t' bs [] with
+                             | FRes (EFound q), NErr e when q = p && e = e_EXIST -> "G:ok"
+                             | _ -> "G:MODEL-BAD")
+                        | None -> "G:MODEL-BAD"))
+         | _ -> "G:ok")
     | ["N"; ph; vh] ->
         (match new_path s [] (unhex ph) (unhex vh) with
          | NErr e -> "N:E" ^ string_of_int (int_of_n e)
